@@ -5,7 +5,9 @@
    [part_count p] = 1 + the largest id of the input array (what both
    algorithms use as the number of parts); [gap] = heaviest - lightest load. *)
 From Coupe Require Import Lib.Prelude Model.NumPart Model.Vn
-  Proofs.NumPartLemmas Proofs.VnBestProofs Proofs.VnFirstProofs Gen.VnGen.
+  Proofs.NumPartLemmas Proofs.VnBestProofs Proofs.VnFirstProofs Gen.VnGen
+  Lib.SFloat Model.ArithW Model.VnW Proofs.VnWProofs.
+From Coq Require Import Floats.SpecFloat.
 Open Scope Z_scope.
 
 (* The guards and comparison operators of vn/best.rs and vn/first.rs that the
@@ -87,6 +89,37 @@ Theorem C14_check_vn_ok : forall ws p p',
    /\ sumZ (loads ws p' (part_count p)) = sumZ (loads ws p (part_count p))).
 Proof. exact check_vn_ok. Qed.
 Print Assumptions C14_check_vn_ok.
+
+(* ---------------- VnBest / VnFirst over an arbitrary weight arithmetic (integers, binary64) ---------------- *)
+
+(* [vn_bestW A], [vn_firstW A] are the same transcriptions with every +, -, <, <=, ==, / two going
+   through the arithmetic [A].  The guards need no law: *)
+Theorem C14_vnbest_negative_generic : forall (A : arith) fuel ws p, length ws = length p ->
+  Exists (fun w => w_ltb A w (w_zero A) = true) ws -> vn_bestW A fuel ws p = Err NegativeValues.
+Proof. exact vn_bestW_negative. Qed.
+Print Assumptions C14_vnbest_negative_generic.
+Theorem C14_vn_mismatch_generic : forall (A : arith) fuel ws p, length ws <> length p ->
+  vn_bestW A fuel ws p = Err (InputLenMismatch (length p) (length ws))
+  /\ vn_firstW A ws p = Err (InputLenMismatch (length p) (length ws)).
+Proof. exact (fun A fuel ws p H => conj (vn_bestW_mismatch A fuel ws p H) (vn_firstW_mismatch A ws p H)). Qed.
+
+(* The gap and termination statements do NOT survive rounding (the model is bit-for-bit the code):
+   REFUTED for binary64 -- VnBest never returns on 0.2 0.8 0.9 0.1 0.1 with parts 1 1 0 1 0
+   (loads 1.0 | 1.1; the tracked imbalance is the rounded difference 0.10000000000000009 > 0.1, the
+   weight 0.1 is moved, the loads become 1.1 | 1.0, it is moved back, for ever): whatever the fuel,
+   the model answers OutOfFuel. *)
+Theorem C14_vnbest_f64_terminates_refuted : forall fuel, vn_bestW F64arith fuel osc_ws osc_p = OutOfFuel.
+Proof. exact vnbest_f64_never_returns. Qed.
+Print Assumptions C14_vnbest_f64_terminates_refuted.
+
+(* REFUTED for binary64 in exact arithmetic -- VnFirst on 0.1 0.1 0.6000000000000001 0.7000000000000001
+   with parts 0 1 1 0 returns 1 1 1 0: the exact gap grows by 2^-54 ([check_vn_f64] = (within the
+   rounding tolerance, NOT strictly)). *)
+Theorem C14_vnfirst_f64_exact_gap_refuted :
+  vn_firstW F64arith vf_ws [0; 1; 1; 0]%N = Ok ([1; 1; 1; 0]%N, 2%N)
+  /\ check_vn_f64 vf_ws [0; 1; 1; 0]%N [1; 1; 1; 0]%N = Some (true, false).
+Proof. exact vnfirst_f64_exact_gap_grows. Qed.
+Print Assumptions C14_vnfirst_f64_exact_gap_refuted.
 
 (* ---------------- non-vacuity ---------------- *)
 (* three parts, loads 21 | 11 | 3: the weight 9 moves from the heaviest to the lightest part *)
